@@ -94,7 +94,7 @@ def model_check(ad, fam_file, res, tag):
     # safety invariants (print-only) + the liveness property "every behaviour reaches a finished state" under weak fairness
     tlc.write_cfg(wd, root, spec="FairSpec", invariants=list(ad.solo_invariants), properties=["Termination"])
     r = tlc.run(wd, root, env={"FAMILY_FILE": fam_file}, coverage=True)
-    if "Temporal properties were violated" in r.out:
+    if "Termination" in r.violated:
         res.drift.append({"kind": "model-liveness", "which": ["Termination"],
                           "note": "the Solo MODEL has a behaviour that never finishes (see out/tlc/solo_%s/tlc.log)" % tag})
         r.violated = [v for v in r.violated if v != "Termination"]
